@@ -68,8 +68,14 @@ TRANSLATION TABLE (Python → Lean)
   nsmallest(n, xs)                      (Py.nsmallest lt n.toNat xs): the first n of the stable sort by the translated `__lt__`
   obj.PROP (registry props)             (PROP obj): call of the translated property getter;  len(obj) → (len_ obj) if `__len__` is translated
   record given as `extern`              the hand-written model's structure; attributes map to its fields as the registry says
+  self.attr is None / is not None      self.attr.isNone / self.attr.isSome      (an attribute of Option type, in a test position)
+  registry effect_self `obj.meth()`     let effects_ := effects_ ++ [obj]         (a callback: the receiver is what is recorded)
+  try: x = self.o.m() / except IndexError: H / [else: E]; rest      (registry obj_calls: `m` translated before, can raise, has state)
+                                        match m { receiver built from the state locals } fuel with
+                                        | (.ok x, state') => E; rest | (.error Py.Err.Index, state') => H; rest
+                                        | (.error err_, state') => (.error err_, …)   (any other error propagates, state kept)
 NOT in the subset: floats, strings (except in `raise`), dict values, sets, slices, list indexing, nested defs, lambda,
-try/with, while without fuel, *args/**kwargs, walrus, global state, division by 0.
+any other try, with, while without fuel, *args/**kwargs, walrus, global state, division by 0.
 """
 from __future__ import annotations
 
@@ -130,6 +136,10 @@ class Fn:
     order: str | None = None       # Lean name of the translated `__lt__` that heappush / heappop compare with
     props: dict = field(default_factory=dict)     # attribute that is a @property -> python name of its translated getter
     defaults_ok: bool = True       # parameters' default values are ignored (callers pass everything)
+    effect_self: tuple = ()        # effects `obj.meth()` without arguments whose recorded value is the receiver `obj` (a callback)
+    obj_calls: dict = field(default_factory=dict)   # "self.event_list.pop_event" -> (python name of the translated method, record of
+    #                                               the receiver, state attrs of THIS function holding the receiver's state attrs):
+    #                                               only as `try: x = <call>() / except IndexError: .. [else: ..]` (s_Try)
 
 
 EXTERN = {}     # record name -> Lean name of extern records (filled by generate_group)
@@ -340,6 +350,11 @@ class Translator:
 
     def e_Compare(self, e, env):
         operands = [e.left, *e.comparators]
+        if len(e.ops) == 1 and isinstance(e.ops[0], (ast.Is, ast.IsNot)) and isinstance(e.left, ast.Attribute) and \
+                isinstance(e.comparators[0], ast.Constant) and e.comparators[0].value is None:
+            t, ty = self.expr(e.left, env)                 # `self.attr is None` on an attribute of Option type
+            if ty and ty[0] == "O":
+                return f"{t}.{'isNone' if isinstance(e.ops[0], ast.Is) else 'isSome'}", "Bool"
         # tuples (literals or values of a fixed-tuple type) compared lexicographically
         if len(e.ops) == 1 and isinstance(e.ops[0], (ast.Lt, ast.LtE, ast.Gt, ast.GtE)):
             sides = [self.components(x, env) for x in operands]
@@ -497,6 +512,9 @@ class Translator:
                             out.append(d)
                 elif isinstance(s, (ast.AugAssign, ast.AnnAssign)):
                     tgt(s.target)
+                elif isinstance(s, ast.Expr) and isinstance(s.value, ast.Call) and self.effect_self_key(s.value):
+                    if OUT not in out:
+                        out.append(OUT)         # a callback effect, whatever the receiver's local is called
                 elif isinstance(s, ast.Expr) and isinstance(s.value, ast.Call) and isinstance(s.value.func, ast.Attribute):
                     d = OUT if (_dotted(s.value.func) in self.fn.effects or _dotted(s.value.func) in self.fn.snapshot) \
                         else _dotted(s.value.func.value)
@@ -590,6 +608,8 @@ class Translator:
             return self.s_For(s, env, k)
         if isinstance(s, ast.While):
             return self.s_While(s, env, k)
+        if isinstance(s, ast.Try):
+            return self.s_Try(s, env, k)
         if isinstance(s, ast.Break):
             if not self.breaks or self.breaks[-1] is None:
                 self.bad(s, "break outside a while loop")
@@ -707,6 +727,13 @@ class Translator:
             if c.args or c.keywords or self.fn.effects.get(f) != "Int":
                 self.bad(c, f"tagged effect call `{f}` must have no arguments (and the effect type Int)")
             return self.let(OUT, f"{OUT} ++ [{int(self.fn.effect_tags[f])}]") + k(env)
+        if self.effect_self_key(c):
+            key = self.effect_self_key(c)
+            t, ty = self.expr(c.func.value, env)
+            ety = self.fn.effects[key]
+            if ty != (ety[1] if ety[0] == "T" and len(ety) == 2 else ety):
+                self.bad(c, f"callback effect `{f}` on a receiver of type {ty}")
+            return self.let(OUT, f"{OUT} ++ [{t}]") + k(env)
         if f in self.fn.effects:
             args = list(c.args)
             names = self.fn.effect_params.get(f)
@@ -825,6 +852,47 @@ class Translator:
             self.aux[idx] = head + [f"    if {c} then ("] + _ind(body, 6) + ["    ) else ("] + _ind(rest, 6) + ["    )"]
         return again(env)
 
+    def effect_self_key(self, c):
+        """the registry key of a callback effect `<local>.meth()` (no arguments; the local may have any name), or None"""
+        if isinstance(c.func, ast.Attribute) and isinstance(c.func.value, ast.Name) and not c.args and not c.keywords:
+            for key in self.fn.effect_self:
+                if key in self.fn.effects and key.split(".")[-1] == c.func.attr and key.count(".") == 1:
+                    return key
+        return None
+
+    def s_Try(self, s, env, k):
+        """`try: x = self.o.m() / except IndexError: H / [else: E]; rest` with `self.o.m` in the registry's obj_calls: a match on
+           the result of the translated `m` (value-or-error, state of the receiver): `.ok x` → E; rest, `.error Index` → H; rest,
+           any other error (only `Fuel` can occur) propagates.  The receiver's state is rebound in every branch."""
+        h = s.handlers[0] if len(s.handlers) == 1 else None
+        st = s.body[0] if len(s.body) == 1 else None
+        if s.finalbody or h is None or h.name is not None or _dotted(h.type) != "IndexError":
+            self.bad(s, "try statement other than `try: .. except IndexError: .. [else: ..]`")
+        if not (isinstance(st, ast.Assign) and len(st.targets) == 1 and isinstance(st.targets[0], ast.Name)
+                and isinstance(st.value, ast.Call) and not st.value.args and not st.value.keywords
+                and _dotted(st.value.func) in self.fn.obj_calls):
+            self.bad(s, "try body other than one assignment `x = <registry obj_call>()`")
+        meth, rec, attrs = self.fn.obj_calls[_dotted(st.value.func)]
+        if meth not in self.group:
+            self.bad(s, f"`{meth}` is not translated before this function")
+        gfn, rty = self.group[meth]
+        if not (rty and rty[0] == "T" and rty[1][0] == "E" and list(gfn.state) and len(rty) - 2 == len(attrs) == len(gfn.state)
+                and all(a in env for a in attrs)):
+            self.bad(s, f"`{meth}` does not have the shape (value-or-error, state…) expected of an obj_call")
+        if list(self.recs[rec].fields) != [a.split(".", 1)[1] for a in gfn.state]:
+            self.bad(s, f"record {rec} is not exactly the state of `{meth}`")
+        recv = "{ " + ", ".join(f"{f} := {self.v(a)}" for f, a in zip(self.recs[rec].fields, attrs)) + " }"
+        call = " ".join([gfn.name, recv] + (["fuel"] if gfn.fuel else []))
+        if gfn.fuel and not self.fn.fuel:
+            self.bad(s, f"`{meth}` needs fuel, the registry gives this function none")
+        sts = ", ".join(self.v(a) for a in attrs)
+        x = st.targets[0].id
+        ok_env = dict(env, **{x: rty[1][1]})
+        ok_b = self.block(s.orelse, ok_env, k)
+        ix_b = self.block(h.body, dict(env), k)
+        return [f"match {call} with", f"| (.ok {self.v(x)}, {sts}) => ("] + _ind(ok_b) + [")", f"| (.error Py.Err.Index, {sts}) => ("] + \
+            _ind(ix_b) + [")", f"| (.error err_, {sts}) => {self.wrap_ret(None).replace('.ok ()', '.error err_', 1)}"]
+
     def s_ForRec(self, s, env, k):
         """a `for` with return / raise / break inside → an auxiliary definition, structurally recursive on the list:
              NAME vars [] = rest        NAME vars (p :: todo) = body; NAME vars' todo
@@ -929,9 +997,11 @@ class Translator:
         for n in ast.walk(node):
             if isinstance(n, (ast.FunctionDef, ast.AsyncFunctionDef, ast.Lambda, ast.ClassDef)) and n is not node:
                 self.bad(n, "nested def / lambda / class")
-            if isinstance(n, (ast.Yield, ast.YieldFrom, ast.Await, ast.Global, ast.Nonlocal, ast.Try, ast.With, ast.NamedExpr,
+            if isinstance(n, (ast.Yield, ast.YieldFrom, ast.Await, ast.Global, ast.Nonlocal, ast.With, ast.NamedExpr,
                               ast.Delete, ast.Import, ast.ImportFrom, ast.Assert)):
                 self.bad(n, f"{type(n).__name__} outside the subset")
+            if isinstance(n, ast.Try) and not fn.obj_calls:
+                self.bad(n, "Try outside the subset")
         lines = []
         if fn.effects or fn.snapshot:
             if fn.effects:
